@@ -13,4 +13,7 @@ from wv.model import Program  # noqa
 prog = Program(os.environ.get("WV_SRC_ROOT", "/repo/src"))
 names = sorted(prog.functions)
 json.dump(names, open(os.path.join(HERE, "wv", "inventory.json"), "w"), indent=0)
-print(len(names), "functions")
+from wv import inline  # noqa
+shapes = dict((q, inline.function_shape(f.node)) for q, f in prog.functions.items() if inline._is_private(f.name))
+json.dump(shapes, open(os.path.join(HERE, "wv", "inventory_shapes.json"), "w"), indent=0, sort_keys=True)
+print(len(names), "functions", len(shapes), "private shapes")
